@@ -1,22 +1,22 @@
 CONSTANTS
   MaxId = 1
-  ZeroIncBug = TRUE
+  ZeroIncBug = FALSE
   OpenRaceBug = FALSE
   W = 2
   B = 1
-  Openers = {0}
+  Openers = {}
   MaxWrite = 2
-  MaxRead = 2
-  Budget = 6
-  WireCap = 3
+  MaxRead = 1
+  Budget = 5
+  WireCap = 1
   DoExport = FALSE
-  DeadlineBug = "none"
-  Acts = {"open","accept","cancel","write","read","cw","close"}
-  Modes = {}
+  DeadlineBug = "wlose"
+  Acts = {"wstart","rstart","setwd","setrd","write","read"}
+  Modes = {"clear","past","far","soon"}
   DlEnds = {0, 1}
-  PreEst = FALSE
-  BlockOnRoom = FALSE
-  TrackKinds = {"zr","zw","rt","wt"}
+  PreEst = TRUE
+  BlockOnRoom = TRUE
+  TrackKinds = {}
 SPECIFICATION Spec
 VIEW view
 INVARIANT InvTokens InvInOrder InvEOFComplete InvNoCrossTalk InvNoViolation InvWindow InvWire Export
